@@ -749,6 +749,9 @@ class World:
                 src = "def %s(%s):\n    _see(OLD)\n    return _hit()\n" % (name, plist)
             elif style == "async":
                 src = "async def %s(%s):\n    _see(OLD)\n    return await _ahit()\n" % (name, plist)
+            elif style == "awaitable":
+                ns["_Aw"] = _Awaitable
+                src = "def %s(%s):\n    _see(OLD)\n    return _Aw(_ahit())\n" % (name, plist)
             else:
                 src = "def %s(%s):\n    _see(OLD)\n    return _ahit()\n" % (name, plist)
             exec(src, ns)  # pylint: disable=exec-used
@@ -757,6 +760,10 @@ class World:
             src = "def %s(%s):\n    return _hit()\n" % (name, plist)
         elif style == "async":
             src = "async def %s(%s):\n    return await _ahit()\n" % (name, plist)
+        elif style == "awaitable":
+            # the condition returns an awaitable that is not a coroutine (as asyncio.gather(...) or a Future would be)
+            ns["_Aw"] = _Awaitable
+            src = "def %s(%s):\n    return _Aw(_ahit())\n" % (name, plist)
         else:
             src = "def %s(%s):\n    return _ahit()\n" % (name, plist)
         exec(src, ns)  # pylint: disable=exec-used
@@ -1169,6 +1176,18 @@ class World:
                 return (lambda: getattr(obj, fn)), unit, td["obj"]
             return (lambda: setattr(obj, fn, t)), unit, td["obj"]
         raise HarnessError("unknown op %r" % op)
+
+
+class _Awaitable:
+    """An awaitable that is not a coroutine object."""
+
+    __slots__ = ("_c",)
+
+    def __init__(self, c):
+        self._c = c
+
+    def __await__(self):
+        return self._c.__await__()
 
 
 def _foreign_wraps(f):
